@@ -33,9 +33,10 @@ Whitelist (everything else raises Untranslatable; emit() then writes a file hold
                       self.options.load_options_file(X, evaluation_parameters={"D": self.D}) -> KLoad ;
                       self.options.validate_option_names([X, ..]) -> KValidate ; top level of the body only, self.D assigned
                       before and not between, nothing but path assignments between the first and the last of them.
-  package census      no other call of Options( / cls( / load_options_file / validate_option_names /
-                      init_from_existing_options and no other assignment to an `.options` attribute anywhere in pybads/
-                      (outside pybads/testing): a second loader elsewhere raises.
+  package census      no other call of Options( / load_options_file / validate_option_names / init_from_existing_options, no other
+                      assignment to an `.options` attribute, no update / pop / clear / setdefault / del on an options object
+                      anywhere in pybads/ (outside pybads/testing): a second loader / writer elsewhere raises (subscript stores
+                      are the business of static:option-write-sites).
 
 Nothing is normalised except: parameter / local names, the operand order of == / !=, `a != b` as not (a == b),
 `x not in y` as not (x in y).  `A and B` vs `not (not A or not B)` etc. are NOT normalised here: the tests are emitted as
@@ -565,6 +566,13 @@ def census(repo):
                     sites.append((rel, "Options()"))
                 elif isinstance(f, ast.Attribute) and f.attr in ("load_options_file", "validate_option_names", "init_from_existing_options"):
                     sites.append((rel, f.attr))
+                elif isinstance(f, ast.Attribute) and f.attr in ("update", "pop", "popitem", "clear", "setdefault", "__setitem__", "__delitem__") \
+                        and ((isinstance(f.value, ast.Attribute) and f.value.attr == "options") or _is_name(f.value, "options")):
+                    sites.append((rel, f"options.{f.attr}()"))      # a writer of an options object that is not a subscript store
+            if isinstance(n, ast.Delete):
+                for t in n.targets:
+                    if isinstance(t, ast.Subscript) and ((isinstance(t.value, ast.Attribute) and t.value.attr == "options") or _is_name(t.value, "options")):
+                        sites.append((rel, "del options[...]"))
             if isinstance(n, (ast.Assign, ast.AugAssign, ast.AnnAssign)):
                 for t in (n.targets if isinstance(n, ast.Assign) else [n.target]):
                     if isinstance(t, ast.Attribute) and t.attr == "options":
